@@ -167,6 +167,53 @@ def options_vs_coords(rng):
     return None
 
 
+def options_mixed_tags(rng):
+    """three or four rigid motions through the options, some for the whole structure and some for one tagged object, with
+    keys that interleave them: the documented order (numeric sort key, each motion applied to the objects it names at its turn)
+    against the same structure written into the coordinates"""
+    from common import run_main
+    w = [np.array([0, 0, 0, 0, 0, 5.0]), np.array([0, 0, 5.0, 3.0, 1.0, 5.0])]
+    nops = rng.choice([2, 3, 3, 4])
+    keys = rng.sample([1, 2, 3, 5, 8, 10, 20], nops)
+    ops = []
+    for j, key in enumerate(keys):
+        tag = [None, rng.choice([1, 2]), None, rng.choice([1, 2])][(j + rng.randrange(2)) % 4]
+        if rng.random() < 0.5:
+            ops.append((key, 'rot', [rng.choice([0, 30, 90, round(rng.uniform(-180, 180), 2)]) for _ in range(3)], tag))
+        else:
+            ops.append((key, 'tr', [round(rng.uniform(-5, 5), 2) for _ in range(3)], tag))
+    if not any(t is None for _, _, _, t in ops) or not any(t is not None for _, _, _, t in ops):
+        ops[0] = ops[0][:3] + (None,)
+        ops[-1] = ops[-1][:3] + (2,)
+    a1 = ['-f', '14', '--excitation-pulse=2', '-w', '1,4,%s,.01' % ','.join('%.17g' % x for x in w[0]),
+          '-w', '2,3,%s,.01' % ','.join('%.17g' % x for x in w[1])]
+    for key, kind, v, tag in ops:
+        a1.append('--geo-%s=%d,%s%s' % ('rotate' if kind == 'rot' else 'translate', key, ','.join('%.17g' % x for x in v),
+                                        '' if tag is None else ',%d' % tag))
+    cur = [x.copy() for x in w]
+    for key, kind, v, tag in sorted(ops, key=lambda o: o[0]):
+        for t_ in (0, 1):
+            if tag is not None and tag != t_ + 1:
+                continue
+            if kind == 'rot':
+                R = rotmat(*v)
+                cur[t_] = np.concatenate([R @ cur[t_][:3], R @ cur[t_][3:]])
+            else:
+                cur[t_] = cur[t_] + np.array(v + v)
+    a2 = ['-f', '14', '--excitation-pulse=2', '-w', '1,4,%s,.01' % ','.join('%.17g' % x for x in cur[0]),
+          '-w', '2,3,%s,.01' % ','.join('%.17g' % x for x in cur[1])]
+    m1 = run_main(a1, want_mininec=True)['m']; m2 = run_main(a2, want_mininec=True)['m']
+    if m1 is None or m2 is None:
+        return 'options or coordinates rejected: %r' % (a1 if m1 is None else a2,), a1
+    for g1, g2 in zip(m1.geo, m2.geo):
+        for s1, s2 in zip(g1.segments, g2.segments):
+            if np.max(np.abs(s1.p2 - s2.p2)) > 1e-9 * (1 + np.max(np.abs(s2.p2))):
+                return 'segment end %r (options) vs %r (coordinates)' % (s1.p2, s2.p2), a1
+    if len(m1.pulses) != len(m2.pulses):
+        return '%d unknowns through the options, %d with the coordinates' % (len(m1.pulses), len(m2.pulses)), a1
+    return None, a1
+
+
 def options_connectivity(rng):
     """motions requested through the options that decide which ends meet: a half of a dipole written somewhere else and
     moved into place with a per-object --geo-translate (and the converse: written in place, moved away); a loop of an arc
@@ -350,6 +397,7 @@ def replay(rp):
 def run(ck):
     import c02
     ck.proof_side()
+    ck.cov['further_clauses'] = 'command lines of two to four rigid motions, whole-structure and per-tag with interleaving sort keys, against coordinates computed in key order'
     d = ck.get_driver()
     rng = ck.rng
     n = 25 if ck.tier == 'quick' else 300
@@ -408,6 +456,12 @@ def run(ck):
         ck.case(('options', i), True)
         if bad:
             viol.append(dict(kind='options', observed=bad))
+    for i in range(30 if ck.tier == 'quick' else 400):
+        bad, argv = options_mixed_tags(rng)
+        ck.case(('options-mixed-tags', i), True)
+        ck.count('options_mixed_tags_cases')
+        if bad:
+            viol.append(dict(kind='options', observed=bad, argv=argv))
     ck.stats['disagreements'] = len(dis)
     ck.cov['rule'] = ('antennas from the shared generator, moved by random rotations about three axes and translations up to 100 m '
                       '(free space) / yaw and horizontal shifts (ground), scale factors 0.01..100 with f/s; matrix of the moved '
